@@ -2,6 +2,7 @@ import PfModel.Props.C02
 import PfModel.Lemmas.PipelineNeeded
 import PfModel.Lemmas.PipelineTotal
 import PfModel.Lemmas.PipelineCombos
+import PfModel.Lemmas.PipelineCombosComplete
 /-!
 C02, continued — *which* functions a call evaluates, *which* keywords it consumes, and that every combination listed by
 `arg_combinations` is accepted.
@@ -162,6 +163,21 @@ theorem C02_arg_combinations_consumed (fs : List Func) (rank : String → Nat) (
   obtain ⟨⟨e, he, orig, hp, hb⟩, _⟩ := hE n hn
   exact ⟨funcAt fs e, ⟨hko, hreach e he⟩, hb, orig, hp⟩
 
+/-- **A listed combination is self-sufficient.**  When distinct graph nodes have distinct sort keys (`KeyInj`: decidable,
+    and true whenever names are identifiers — the condition under which the model's `uniqueSorted` is Python's
+    `sorted(set(nodes), key=_sort_key)`), a listed combination contains *every* root argument of the functions it makes
+    needed — with or without a default — so the call needs nothing else: `C02_arg_combinations` without its
+    resolvability hypothesis. -/
+theorem C02_arg_combinations_self_sufficient (fs : List Func) (rank : String → Nat) (hw : WFp fs rank)
+    (hki : KeyInj fs) (o : String) (cs : List (List String)) (hcs : argCombinations fs o = some cs)
+    (c : List String) (hc : c ∈ cs) (kw : List (String × Val)) (hkeys : ∀ k, k ∈ akeys kw ↔ k ∈ c) :
+    ∃ out, runTop fs kw (.name o) = .ok out ∧ (∃ k, compose fs kw k o = .ok out.value) ∧
+      (∀ nm, nm ∈ out.calls ↔ needed fs kw o nm) := by
+  obtain ⟨i0, hi0, hcc⟩ := argCombinations_ccut fs rank hw hki o cs hcs
+  refine cut_accepted fs kw rank hw o i0 hi0 c ((hcc c hc).cut fs hw.uniq i0 ⟨o, hi0⟩ c) hkeys ?_
+  intro f hf
+  exact ccut_resolvable fs kw hw.uniq o i0 hi0 c (hcc c hc) hkeys f hf.2
+
 /-- The all-roots combination `root_args` is one of the listed combinations, hence accepted. -/
 theorem C02_root_args_accepted (fs : List Func) (rank : String → Nat) (hw : WFp fs rank) (o : String)
     (c : List String) (hc : rootArgs fs o = some c)
@@ -277,5 +293,16 @@ example : ∃ out, runTop [fM, fN] [("z", .int 1)] (.name "m") = .ok out ∧
     have hm := Reach.mem _ _ hf.2
     simp [fM, fN] at hm
     rcases hm with rfl | rfl <;> simp at hp <;> rcases hp with rfl | rfl <;> simp at hpc ⊢ <;> decide
+
+/-- `KeyInj` holds on both pipelines, and `C02_arg_combinations_self_sufficient` then accepts every listed combination
+    outright — e.g. `["b", "c", "x"]` of the diamond, whatever the values -/
+example : KeyInj [fD, fB, fA] ∧ KeyInj [fM, fN] := by decide
+
+example (v1 v2 v3 : Val) : ∃ out, runTop [fD, fB, fA] [("x", v1), ("c", v2), ("b", v3)] (.name "d") = .ok out ∧
+    (∃ k, compose [fD, fB, fA] [("x", v1), ("c", v2), ("b", v3)] k "d" = .ok out.value) ∧
+    (∀ nm, nm ∈ out.calls ↔ needed [fD, fB, fA] [("x", v1), ("c", v2), ("b", v3)] "d" nm) := by
+  apply C02_arg_combinations_self_sufficient [fD, fB, fA] rankD wf_diamond (by decide) "d"
+    [["a", "b", "c"], ["b", "c", "x"], ["x", "y"], ["a", "y"]] (by decide) ["b", "c", "x"] (by decide)
+  intro k; simp [akeys]; constructor <;> (intro h; rcases h with h | h | h <;> simp [h])
 
 end PF.C02
